@@ -120,8 +120,22 @@ def make_spec(rng, gen, kind, nsend=None, fail=None, shape=None):
         ws = [{"w": "ok", "d": "ret"}] + [{"w": "raise"} if rng.random() < 0.6 else {"w": "ok", "d": "raise"}
                                            for _ in range(rng.choice([2, 3]))] + [{"w": "ok", "d": "ret"}] * 24
         spec.update(wscript=ws, fail="w", fail_at=1, status_cb=rng.choice(["sleep", "sleep", "ret", "yield"]), refuse=0)
+    if shape == "twofail":
+        # two senders fail one after the other on the same broken link while the application's status callback is
+        # slow: the reconnection triggered by one report must survive the other report's handler
+        spec["sends"] = [{"msg": gen.message(rng, "fast"), "what": "fast", "delay": 0},
+                         {"msg": gen.message(rng, rng.choice(["fast", "single"])), "what": "x", "delay": rng.choice([0, 0, 1, 2])}]
+        if rng.random() < 0.4:
+            spec["sends"].append({"msg": gen.message(rng, "single"), "what": "single", "delay": 0})
+        k = rng.choice([0, 1, 2])
+        first = rng.choice([{"w": "ok", "d": "susp_raise", "n": rng.choice([1, 2, 3])}, {"w": "ok", "d": "raise"}, {"w": "raise"}])
+        ws = [{"w": "ok", "d": rng.choice(["ret", "susp"]), "n": 1} for _ in range(k)] + [first] + \
+             [rng.choice([{"w": "raise"}, {"w": "ok", "d": "raise"}]) for _ in range(len(spec["sends"]) - 1)] + \
+             [{"w": "ok", "d": "ret"}] * 24
+        spec.update(wscript=ws, fail="dd", fail_at=k, status_cb=rng.choice(["sleep", "sleep", "sleep", "yield"]), refuse=0)
     if shape == "unconnected":
         spec["no_connect"] = True
+    spec["probe"] = {"msg": gen.message(rng, rng.choice(["fast", "fast", "single"]))}
     if shape == "close":
         # close() while sends are pending/in flight. A connect() racing with close() is C14's subject (F-closerace),
         # so faults are only scripted when CLOSED is set before any send has run (close_after = 0).
@@ -225,6 +239,24 @@ def oracle(spec, res):
             return "fault-not-reported", f"a write/drain failed but the status trace is {st}"
         if f["state"] != "CONNECTED" or f["nopen"] < 2:
             return "no-reconnect", f"after a failing write: state {f['state']}, {f['nopen']} connection(s)"
+    # 5. afterwards the connection is usable: one more valid message is written whole to the connection the client is on
+    p = f.get("probe")
+    if p and p["before"]["state"] == "CONNECTED":
+        bw = p["before"]
+        if bw["writer_closed"]:
+            return "reconnect-unusable", (f"the client reports CONNECTED on connection {bw['writer']} of {bw['nopen']} but it has "
+                                          f"closed that connection itself (status trace {st})")
+        if p["encoded"] is not None:
+            got = [h for w, h in p["written"] if w == bw["writer"]]
+            if got != p["encoded"] or p["dropped"] or len(got) != len(p["written"]):
+                return "later-message-not-written", (f"after the session (state CONNECTED, connection {bw['writer']}) a valid message "
+                                                     f"of {len(p['encoded'])} packet(s) is sent: {len(got)} arrive on that connection, "
+                                                     f"{p['dropped']} dropped by a closed writer")
+        elif p["written"]:
+            return "bad-message-written", "the probe message is unencodable for this client but packets were written"
+        if p["state_after"] != "CONNECTED" or p["nopen_after"] != bw["nopen"] or p["status_after"]:
+            return "later-message-disturbs", (f"a valid message sent after the session changed the connection: state {p['state_after']}, "
+                                              f"status trace {p['status_after']}, {p['nopen_after'] - bw['nopen']} new connection(s)")
     return None
 
 
@@ -300,6 +332,8 @@ def _specs(ctx, gen, per):
         specs.append(make_spec(rng, gen, kind, shape="unconnected", fail=False))
         specs.append(make_spec(rng, gen, kind, shape="window", fail=False))
         specs.append(make_spec(rng, gen, kind, shape="window", fail=False))
+        specs.append(make_spec(rng, gen, kind, shape="twofail", fail=False))
+        specs.append(make_spec(rng, gen, kind, shape="twofail", fail=False))
         for fail in ("w", "dd", None):
             specs.append(make_spec(rng, gen, kind, shape="close", fail=fail))
         for _ in range(per):
